@@ -186,13 +186,42 @@ var hForms = []hForm{
 
 type hRec struct {
 	ptr, typ, name string
+	// hooks this record must see exactly once each, in this order (nil: the hooks of the case's kind)
+	hooks []string
+	// byName: gorm works on a copy of the value the caller handed over (a record appended to the owner's relation
+	// field in association mode): the record is identified by its type and payload
+	byName bool
+	// owner: address of the owner record between whose before- and after-hooks this record is saved ("": the
+	// argument records as a whole)
+	owner string
 }
+
+func (x hRec) key() string {
+	if x.byName {
+		return "n:" + x.typ + ":" + x.name
+	}
+	return x.ptr
+}
+
+var hCreateHooks = []string{"BeforeSave", "BeforeCreate", "AfterCreate", "AfterSave"}
+var hUpdateHooks = []string{"BeforeSave", "BeforeUpdate", "AfterUpdate", "AfterSave"}
+var hDeleteHooks = []string{"BeforeDelete", "AfterDelete"}
 
 type hCase struct {
 	desc string
 	run  func(db *gorm.DB) error
-	// kind of exact check of the run with hooks: "" (only: it fires hooks), "create", "delete"
+	// kind of exact check of the run with hooks: "" (only: it fires hooks), "create", "delete", "save" (every record
+	// of recs names its own hooks: updates of owners that save new associated records, association mode)
 	exact string
+	// save: delete hooks on model values gorm makes itself (Replace unlinking the old records) are not part of what
+	// is demanded
+	tolerateDelete bool
+	// refuse: "" (atomic cases: "atomic"), "atomic" (every invocation refused once: error returned, everything undone,
+	// no later phase), "error" (several transactions, e.g. one per owner: error returned, the refusing hook's own write
+	// undone, no later phase for the refusing record, no transaction left open)
+	refuse string
+	// manyTx: the operation runs more than one transaction of its own (hook writes must still be inside one)
+	manyTx bool
 	// create: the in-memory records of the graph (known after run) and the number of link records
 	recs func() (recs []hRec, links int)
 	// delete: the argument records and the models of the selected relations (one internal model value each)
@@ -248,7 +277,7 @@ func hDescOwner(o *HOwner) string {
 }
 
 func hWalk(os []*HOwner) (recs []hRec, links int) {
-	add := func(p interface{}, typ, name string) { recs = append(recs, hRec{fmt.Sprintf("%p", p), typ, name}) }
+	add := func(p interface{}, typ, name string) { recs = append(recs, hRec{ptr: fmt.Sprintf("%p", p), typ: typ, name: name}) }
 	for _, o := range os {
 		add(o, "HOwner", o.Name)
 		if o.Boss != nil {
@@ -389,7 +418,7 @@ func hDeleteSelectOp(shape string, all bool) hOp {
 			},
 			recs: func() (recs []hRec, links int) {
 				for _, o := range ptrs {
-					recs = append(recs, hRec{fmt.Sprintf("%p", o), "HOwner", o.Name})
+					recs = append(recs, hRec{ptr: fmt.Sprintf("%p", o), typ: "HOwner", name: o.Name})
 				}
 				return
 			},
@@ -569,6 +598,7 @@ func hBuildOps() []hOp {
 			return db.Model(&HOwner{ID: int64(r.Range(1, 3))}).UpdateColumns(HOwner{N: 5, Pets: []HPet{{Name: "p" + tag}}, Account: &HAccount{Number: "a" + tag}}).Error
 		})),
 	)
+	ops = append(ops, hSaveOps()...)
 	return ops
 }
 
@@ -582,6 +612,7 @@ type hResult struct {
 	events []recdrv.Event
 	dump   string
 	ctr    recdrv.Counters
+	audits []string
 }
 
 func hExec(f hForm, skip bool, failAt int, run func(db *gorm.DB) error) hResult {
@@ -593,6 +624,13 @@ func hExec(f hForm, skip bool, failAt int, run func(db *gorm.DB) error) hResult 
 	hLog, hFailAt = nil, 0
 	out.ctr = H.Rec.Counters()
 	out.dump = vdb.Dump(H.SQL, hTables...)
+	if rows, err := vdb.RowMaps(H.SQL, "SELECT msg FROM h_audits ORDER BY id"); err == nil {
+		for _, m := range rows {
+			if a, ok := m["msg"].(string); ok {
+				out.audits = append(out.audits, a)
+			}
+		}
+	}
 	return out
 }
 
@@ -603,44 +641,53 @@ func hPhase(hook string) int {
 	return 2
 }
 
-// hCheckExact: the run with hooks of a create / a delete with selected relations
-func hCheckExact(hc hCase, r hResult) (problems []string) {
+// hCheckExact: the run with hooks of a create / a delete with selected relations / an update that saves records
+// (expected: ok[i] tells whether invocation i is one the statement demands - only those are refused in turn)
+func hCheckExact(hc hCase, r hResult) (problems []string, expected []bool) {
 	add := func(f string, a ...interface{}) { problems = append(problems, fmt.Sprintf(f, a...)) }
 	recs, links := hc.recs()
 	count := map[string]int{}
 	pos := map[string]int{}
 	byType := map[string]int{}
 	for i, e := range r.log {
-		count[e.Ptr+"/"+e.Hook]++
-		pos[e.Ptr+"/"+e.Hook] = i
+		for _, k := range []string{e.Ptr + "/" + e.Hook, "n:" + e.Type + ":" + e.Name + "/" + e.Hook} {
+			count[k]++
+			pos[k] = i
+		}
 		byType[e.Type+"/"+e.Hook]++
 	}
-	var hooks []string
-	if hc.exact == "create" {
-		hooks = []string{"BeforeSave", "BeforeCreate", "AfterCreate", "AfterSave"}
-	} else {
-		hooks = []string{"BeforeDelete", "AfterDelete"}
+	hooks := hCreateHooks
+	if hc.exact == "delete" {
+		hooks = hDeleteHooks
 	}
 	known := map[string]bool{}
+	owners := map[string]bool{}
 	for _, x := range recs {
-		for i, h := range hooks {
-			k := x.ptr + "/" + h
+		hs := x.hooks
+		if hs == nil {
+			hs = hooks
+		}
+		if x.owner != "" {
+			owners[x.owner] = true
+		}
+		for i, h := range hs {
+			k := x.key() + "/" + h
 			known[k] = true
 			if count[k] != 1 {
 				add("%s(%s %q) fired %d times, want exactly once", h, x.typ, x.name, count[k])
-			} else if i > 0 && count[x.ptr+"/"+hooks[i-1]] == 1 && pos[x.ptr+"/"+hooks[i-1]] > pos[k] {
-				add("%s fired after %s for %s %q", hooks[i-1], h, x.typ, x.name)
+			} else if i > 0 && count[x.key()+"/"+hs[i-1]] == 1 && pos[x.key()+"/"+hs[i-1]] > pos[k] {
+				add("%s fired after %s for %s %q", hs[i-1], h, x.typ, x.name)
 			}
 		}
 	}
-	// records gorm makes itself: one link record per link (create), one model value per selected relation (delete)
+	// records gorm makes itself: one link record per link (create / save), one model value per selected relation (delete)
 	internal := map[string]int{}
-	if hc.exact == "create" {
-		internal["HOwnerTag"] = links
-	} else {
+	if hc.exact == "delete" {
 		for _, t := range hc.relTypes {
 			internal[t] = 1
 		}
+	} else {
+		internal["HOwnerTag"] = links
 	}
 	for t, n := range internal {
 		for _, h := range hooks {
@@ -653,11 +700,70 @@ func hCheckExact(hc hCase, r hResult) (problems []string) {
 	for _, h := range hooks {
 		isPhaseHook[h] = true
 	}
-	for _, e := range r.log {
-		if _, own := internal[e.Type]; known[e.Ptr+"/"+e.Hook] || (own && isPhaseHook[e.Hook]) {
+	expected = make([]bool, len(r.log))
+	tolerated := make([]bool, len(r.log))
+	for i, e := range r.log {
+		if _, own := internal[e.Type]; known[e.Ptr+"/"+e.Hook] || known["n:"+e.Type+":"+e.Name+"/"+e.Hook] || (own && isPhaseHook[e.Hook]) {
+			expected[i] = true
+			continue
+		}
+		if hc.tolerateDelete && e.Type != "HOwner" && (e.Hook == "BeforeDelete" || e.Hook == "AfterDelete") {
+			tolerated[i] = true
 			continue
 		}
 		add("unexpected %s on a record that is not part of the operation (%s %q)", e.Hook, e.Type, e.Name)
+	}
+	if len(owners) > 0 {
+		// one save per owner: what concerns an owner's associated records happens between that owner's before- and
+		// after-hooks; a link record lies in the span of some owner
+		type span struct{ lastBefore, firstAfter int }
+		spans := map[string]*span{}
+		for i, e := range r.log {
+			if e.Type != "HOwner" {
+				continue
+			}
+			sp := spans[e.Ptr]
+			if sp == nil {
+				sp = &span{-1, len(r.log)}
+				spans[e.Ptr] = sp
+			}
+			if hPhase(e.Hook) == 0 {
+				sp.lastBefore = i
+			} else if sp.firstAfter == len(r.log) {
+				sp.firstAfter = i
+			}
+		}
+		ownerOf := map[string]string{}
+		for _, x := range recs {
+			if x.owner != "" {
+				ownerOf[x.key()] = x.owner
+			}
+		}
+		for i, e := range r.log {
+			if e.Type == "HOwner" || tolerated[i] {
+				continue
+			}
+			o, ok := ownerOf[e.Ptr]
+			if !ok {
+				o, ok = ownerOf["n:"+e.Type+":"+e.Name]
+			}
+			if ok {
+				if sp := spans[o]; sp != nil && (i < sp.lastBefore || i > sp.firstAfter) {
+					add("%s(%s %q) fired outside the span between the before- and the after-hooks of its owner", e.Hook, e.Type, e.Name)
+				}
+				continue
+			}
+			in := false
+			for _, sp := range spans {
+				if i > sp.lastBefore && i < sp.firstAfter {
+					in = true
+				}
+			}
+			if !in {
+				add("%s(%s %q) fired outside the span between the before- and the after-hooks of every owner", e.Hook, e.Type, e.Name)
+			}
+		}
+		return
 	}
 	// pipeline: everything that concerns the associated records happens between the before- and the after-hooks of
 	// the argument records
@@ -673,6 +779,9 @@ func hCheckExact(hc hCase, r hResult) (problems []string) {
 		}
 	}
 	for i, e := range r.log {
+		if tolerated[i] {
+			continue
+		}
 		if e.Type == "HOwner" {
 			if hPhase(e.Hook) == 0 && i > firstAfter {
 				add("%s(HOwner %q) fired after an after-hook of the argument records", e.Hook, e.Name)
@@ -686,8 +795,46 @@ func hCheckExact(hc hCase, r hResult) (problems []string) {
 	return
 }
 
-// hCheckTx: one operation = one transaction, and every write a hook makes through its handle runs in it
-func hCheckTx(r hResult) (problems []string) {
+// hCheckBalance: an operation that returned no error took every record it handed to a before-hook through the
+// matching after-hook as well (each applicable hook exactly once per record): per record, BeforeSave and AfterSave,
+// BeforeCreate and AfterCreate, BeforeUpdate and AfterUpdate, BeforeDelete and AfterDelete fired equally often
+func hCheckBalance(r hResult) (problems []string) {
+	type key struct{ ptr, typ, hook string }
+	cnt := map[key]int{}
+	name := map[string]string{}
+	var order []key
+	for _, e := range r.log {
+		k := key{e.Ptr, e.Type, e.Hook}
+		if cnt[k] == 0 {
+			order = append(order, k)
+		}
+		cnt[k]++
+		name[e.Ptr] = e.Name
+	}
+	for _, k := range order {
+		if !strings.HasPrefix(k.hook, "Before") {
+			continue
+		}
+		after := "After" + strings.TrimPrefix(k.hook, "Before")
+		if b, a := cnt[k], cnt[key{k.ptr, k.typ, after}]; a != b {
+			problems = append(problems, fmt.Sprintf("%s(%s %q) fired %d times, %s %d times, although the operation returned no error", k.hook, k.typ, name[k.ptr], b, after, a))
+		}
+	}
+	for _, k := range order {
+		if !strings.HasPrefix(k.hook, "After") || k.hook == "AfterFind" {
+			continue
+		}
+		before := "Before" + strings.TrimPrefix(k.hook, "After")
+		if cnt[key{k.ptr, k.typ, before}] == 0 {
+			problems = append(problems, fmt.Sprintf("%s(%s %q) fired %d times, %s never", k.hook, k.typ, name[k.ptr], cnt[k], before))
+		}
+	}
+	return
+}
+
+// hCheckTx: every write a hook makes through its handle runs inside a transaction of the operation; one: one operation =
+// one transaction, and that one carries them all
+func hCheckTx(r hResult, one bool) (problems []string) {
 	var txid int64
 	begins := 0
 	for _, e := range r.events {
@@ -698,23 +845,23 @@ func hCheckTx(r hResult) (problems []string) {
 			}
 		}
 	}
-	if begins != 1 {
+	if one && begins != 1 {
 		problems = append(problems, fmt.Sprintf("%d transactions were begun for one operation", begins))
 	}
 	for _, e := range r.events {
-		if e.IsStatement() && strings.Contains(e.Query, "h_audits") && (e.Tx == 0 || e.Tx != txid) {
+		if e.IsStatement() && strings.Contains(e.Query, "h_audits") && (e.Tx == 0 || (one && e.Tx != txid)) {
 			problems = append(problems, fmt.Sprintf("a hook's write ran outside the operation's transaction (tx %d, operation tx %d): %s", e.Tx, txid, e.String()))
 		}
 	}
 	return
 }
 
-func hCheckFailed(ff, r hResult, j int) (problems []string) {
+func hCheckFailed(mode string, ff, r hResult, j int) (problems []string) {
 	add := func(f string, a ...interface{}) { problems = append(problems, fmt.Sprintf(f, a...)) }
 	if !errors.Is(r.err, errVHook) {
 		add("the hook's error was not returned (got %v)", r.err)
 	}
-	if r.dump != hPre {
+	if mode == "atomic" && r.dump != hPre {
 		add("the operation was not rolled back completely")
 	}
 	if r.ctr.OpenTx != 0 {
@@ -725,6 +872,22 @@ func hCheckFailed(ff, r hResult, j int) (problems []string) {
 		return
 	}
 	failed := r.log[j-1]
+	if mode != "atomic" {
+		// one transaction per owner: the refusing hook's own write belongs to the transaction that is undone
+		if failed.Hook != "AfterFind" {
+			for _, a := range r.audits {
+				if a == failed.String() {
+					add("the write %s(%s %q) made through its handle is still stored after the hook refused", failed.Hook, failed.Type, failed.Name)
+				}
+			}
+		}
+		for _, e := range r.log[j:] {
+			if e.Ptr == failed.Ptr && e.Type == failed.Type && hPhase(e.Hook) > hPhase(failed.Hook) {
+				add("after %s(%s %q) was refused, %s of the same record still ran", failed.Hook, failed.Type, failed.Name, e.Hook)
+			}
+		}
+		return
+	}
 	for _, e := range r.log[j:] {
 		if e.Type != failed.Type || hPhase(e.Hook) != hPhase(failed.Hook) {
 			add("after %s(%s %q) was refused, %s(%s %q) of a later phase still ran", failed.Hook, failed.Type, failed.Name, e.Hook, e.Type, e.Name)
@@ -751,18 +914,24 @@ func runHookedPair(c *core.Ctx, op hOp, f hForm) {
 	c.Inc("hooked_family_pairs")
 	ff := hExec(f, false, 0, hc.run)
 	var problems []string
+	var expected []bool
 	if ff.err != nil {
 		problems = append(problems, "error: "+ff.err.Error())
 	} else {
 		if hc.exact != "" {
-			problems = append(problems, hCheckExact(hc, ff)...)
+			problems, expected = hCheckExact(hc, ff)
+			c.Inc("hooked_family_exact_sequence_checks")
 		}
-		if hc.atomic {
-			problems = append(problems, hCheckTx(ff)...)
+		if hc.atomic || hc.manyTx {
+			problems = append(problems, hCheckTx(ff, !hc.manyTx)...)
 		}
 	}
 	if len(problems) > 0 {
 		c.Violation("hooked-family/"+op.name, map[string]interface{}{"op": hc.desc, "handle": on, "problems": problems, "hooks": hLogString(ff.log)})
+		return
+	}
+	if p := hCheckBalance(ff); len(p) > 0 {
+		c.Violation("hooked-family-unbalanced/"+op.name, map[string]interface{}{"op": hc.desc, "handle": on, "problems": p, "hooks": hLogString(ff.log)})
 		return
 	}
 	if hc.noHooks && len(ff.log) != 0 {
@@ -791,14 +960,24 @@ func runHookedPair(c *core.Ctx, op hOp, f hForm) {
 		c.Shape("hooked", op.name, f.name)
 		c.Inc("hooked_family_pairs_where_hooks_apply")
 	}
-	if !hc.atomic {
+	mode := hc.refuse
+	if mode == "" && hc.atomic {
+		mode = "atomic"
+	}
+	if mode == "" {
 		return
 	}
-	// every invocation is refused once
+	// every invocation the statement demands is refused once
 	for j := 1; j <= len(ff.log); j++ {
+		if expected != nil && !expected[j-1] {
+			continue
+		}
 		rf := hExec(f, false, j, hc.run)
 		c.Inc("faulted_runs")
-		if p := hCheckFailed(ff, rf, j); len(p) > 0 {
+		if mode != "atomic" {
+			c.Inc("faulted_runs_of_operations_with_one_transaction_per_owner")
+		}
+		if p := hCheckFailed(mode, ff, rf, j); len(p) > 0 {
 			c.Violation("hooked-family-fail/"+op.name+"/"+ff.log[j-1].Hook+":"+ff.log[j-1].Type, map[string]interface{}{"op": hc.desc, "handle": on, "failed_invocation": j,
 				"problems": p, "hooks_without_failure": hLogString(ff.log), "hooks_this_run": hLogString(rf.log)})
 			break
